@@ -8,6 +8,7 @@ import (
 	"bytes"
 	"context"
 	"crypto/sha256"
+	"crypto/sha512"
 	"encoding/hex"
 	"errors"
 	"fmt"
@@ -185,6 +186,17 @@ func (o *Outcome) Class() string {
 func Digest(b []byte) string {
 	h := sha256.Sum256(b)
 	return "sha256:" + hex.EncodeToString(h[:])
+}
+
+// DigestOther is the digest of b under another registered algorithm (sha512, or sha384 if alt): a valid
+// digest of the right content, but not the canonical one the registry stores content under.
+func DigestOther(b []byte, alt bool) string {
+	if alt {
+		h := sha512.Sum384(b)
+		return "sha384:" + hex.EncodeToString(h[:])
+	}
+	h := sha512.Sum512(b)
+	return "sha512:" + hex.EncodeToString(h[:])
 }
 
 // ErrInfo extracts code, status and range-invalid-ness from an error.
